@@ -657,8 +657,9 @@ protected:
 			if (0 == v) return f;
 			if constexpr (arithmetic == Saturate) {
 				constexpr fixpnt maxpos(SpecificValue::maxpos), maxneg(SpecificValue::maxneg);
-				// check if we are in the representable range
-				if (v >= static_cast<Arith>(maxpos)) { return maxpos; }
+				// check if we are in the representable range: the casts truncate toward zero, so an integer
+				// equal to the truncated maxpos is still representable
+				if (v > static_cast<Arith>(maxpos)) { return maxpos; }
 				if (v <= static_cast<Arith>(maxneg)) { return maxneg; }
 			}
 			constexpr unsigned sizeofInteger = 8 * sizeof(v);
@@ -683,9 +684,9 @@ protected:
 			if (0 == v) return f;
 			if constexpr (arithmetic == Saturate) {
 				constexpr fixpnt<nbits, rbits, arithmetic, bt> maxpos(SpecificValue::maxpos), maxneg(SpecificValue::maxneg);
-				// check if we are in the representable range
-				if (v >= static_cast<Arith>(maxpos)) { return maxpos; }
-				if (v <= static_cast<Arith>(maxneg)) { return maxneg; }
+				// check if we are in the representable range (an unsigned value is never below maxneg);
+				// compare with the integer part of maxpos: the unsigned casts return the raw bits
+				if (v > static_cast<unsigned long long>(static_cast<long long>(maxpos))) { return maxpos; }
 			}
 			constexpr uint64_t mask = 0x1;
 			unsigned upper = (nbits - rbits) <= 64 ? nbits : 64;
